@@ -1,4 +1,5 @@
 import Brax.Lemmas.C02Root
+import Brax.Lemmas.ScanLevelsRev
 import Brax.Props.C01
 /-!
 # C02 — generalized-pipeline dynamics terms equal the reference engine
@@ -11,6 +12,44 @@ Spec: `Brax/Spec/C02.lean` (`Brax.MjD`, MuJoCo's sequential algorithms), tied to
 set_option linter.unusedSectionVars false
 namespace Brax.C02
 open Brax Kin Gd KinPos
+
+/-! ## Layer B stage 2: the leaves → root `scan.tree` as coded is the backward accumulation -/
+
+/-- **`scan.tree(…, reverse=True)` as coded** — links grouped by depth, `None` carry on the deepest level,
+the deeper level's carry scatter-added onto its parents (`jp.zeros(…).at[parent_map].add`), results
+inserted at the front, concatenated and reordered — **computes the backward accumulation `revAcc`** the
+theorems below are stated with, for every forest whose parents precede their children, and every carry
+function of the form `body + child` over a commutative monoid. -/
+theorem reverse_scan_levels_eq_accumulation {M : Type} {add : M → M → M} {z : M} (h : CMon add z)
+    (ps : List Int) (as : List M) (dflt : M) (hlen : ps.length = as.length) (hwf : ParentsWF ps) :
+    scanTreeLevelsRev (addF add) ps as dflt z add = revAcc add ps as :=
+  scanTreeLevelsRev_eq_revAcc ps as dflt h hlen hwf
+
+/-- the zero leaves `index_sum` starts from (`jp.zeros`: the unused quaternion leaf is zero too) -/
+def zInertia {R : Type} [CommRing R] : Inertia R := ⟨⟨V3.zero, ⟨0, 0, 0, 0⟩⟩, M3.zero, 0⟩
+
+theorem cmon_force {R : Type} [CommRing R] : CMon (Force.add : Force R → Force R → Force R) Force.zero := by
+  refine ⟨fun a b c => ?_, fun a b => ?_, fun a => ?_⟩ <;>
+    simp only [Force.add, Force.zero, V3.add_def, V3.zero, Force.mk.injEq, V3.mk.injEq] <;>
+    and_intros <;> ring
+
+theorem cmon_inertia {R : Type} [CommRing R] : CMon (inertiaAdd : Inertia R → Inertia R → Inertia R) zInertia := by
+  refine ⟨fun a b c => ?_, fun a b => ?_, fun a => ?_⟩ <;>
+    simp only [inertiaAdd, zInertia, M3.add, M3.zero, Q4.add, V3.add_def, V3.zero, Inertia.mk.injEq, Tf.mk.injEq,
+      M3.mk.injEq, Q4.mk.injEq, V3.mk.injEq] <;>
+    and_intros <;> ring
+
+/-- `mass.matrix`'s composite-rigid-body scan, as coded = the model's `crb` -/
+theorem crb_levels {R : Type} [CommRing R] (ps : List Int) (cinr : List (Inertia R)) (dflt : Inertia R)
+    (hlen : ps.length = cinr.length) (hwf : ParentsWF ps) :
+    scanTreeLevelsRev (addF inertiaAdd) ps cinr dflt zInertia inertiaAdd = crb ps cinr :=
+  scanTreeLevelsRev_eq_revAcc ps cinr dflt cmon_inertia hlen hwf
+
+/-- `dynamics.inverse`'s force scan (`cfrc_fn`), as coded = the accumulation in the model's `inverse` -/
+theorem cfrc_levels {R : Type} [CommRing R] (ps : List Int) (frc : List (Force R)) (dflt : Force R)
+    (hlen : ps.length = frc.length) (hwf : ParentsWF ps) :
+    scanTreeLevelsRev (addF Force.add) ps frc dflt Force.zero Force.add = revAcc Force.add ps frc :=
+  scanTreeLevelsRev_eq_revAcc ps frc dflt cmon_force hlen hwf
 
 /-! ## the joint-space inertia matrix is symmetric -/
 
